@@ -1,6 +1,6 @@
 ---------------------------- MODULE MC_HyteraFraming ----------------------------
 (* C12: TLC judges Hytera application PDUs built from fields, alone and nested.        *)
-EXTENDS HyteraFraming, Json, IOUtils, TLC
+EXTENDS HyteraFraming, HyteraPayloads, Json, IOUtils, TLC
 D == JsonDeserialize(IOEnv.DATA_FILE)
 VARIABLES chunk, idx
 vars == <<chunk, idx>>
@@ -23,5 +23,16 @@ Judge(i) ==
      ELSE IF s.hstrp2 # s.hstrp THEN "HstrpNestingRoundTrips"
      ELSE "ok"
 
-Report == LET w == Judge(idx') IN w # "ok" => PrintT(ToJson([tag |-> "REJECT", idx |-> idx', why |-> w]))
+\* design level: the payload between length field and checksum against the per-opcode layout of HyteraPayloads.tla
+\* (the statement promises framing and round trip, not field positions: informational)
+PayloadDrift(i) ==
+  LET s == D.samples[i + 1] IN
+  IF s.err # "" \/ s.proto \notin {"RRS", "LP", "TMP"} \/ Len(s.frame) < 7 THEN "ok"
+  ELSE IF SubSeq(s.frame, 6, Len(s.frame) - 2) # Payload(s.proto, s.op, s.lay) THEN "payload-differs-from-layout/" \o s.proto \o "/" \o s.op
+  ELSE IF s.proto = "TMP" /\ s.frame[2] # TmpFlags(s.lay) THEN "tmp-flag-octet-differs-from-layout"
+  ELSE "ok"
+
+Report == LET w == Judge(idx') IN
+          /\ w # "ok" => PrintT(ToJson([tag |-> "REJECT", idx |-> idx', why |-> w]))
+          /\ PayloadDrift(idx') # "ok" => PrintT(ToJson([tag |-> "DRIFT", idx |-> idx', why |-> PayloadDrift(idx')]))
 =============================================================================
